@@ -37,6 +37,11 @@ var specs = map[string]*propSpec{}
 
 func baseArgs(s *propSpec, b *build) []string {
 	args := []string{"-prop", s.id, "-tier", tier, "-seed", fmt.Sprint(seed), "-corpus", b.corpus, "-sites", b.sites}
+	if tier == "thorough" {
+		// A worker of a thorough run ends its search after this much wall time and
+		// reports what it covered (on a loaded machine the run is shorter, not broken).
+		args = append(args, "-budget", "100m")
+	}
 	if *flagMode != "" {
 		args = append(args, "-mode", *flagMode)
 	}
@@ -118,7 +123,7 @@ func init() {
 		search: func(s *propSpec, b *build, a *agg) {
 			runs := int64(800000)
 			if tier == "thorough" {
-				runs = 40000000
+				runs = 30000000
 			}
 			if *flagRuns > 0 {
 				runs = *flagRuns
